@@ -39,10 +39,22 @@ def r03_1(ctx, S, prog, crate):
     ok = False
     for bi, t in b.switches():
         d = direct_place(b, t["discr"])
-        if d and d[0] == "rvalue" and d[1]["k"] == "binop" and d[1]["op"] == "Eq" and const_int(d[1]["b"]) == 0:
-            a = d[1]["a"]
-            if a["k"] in ("copy", "move") and S.classify_local(S.root_local(a["p"]["l"])) == "max_time":
-                ok = S.pe[0].bb not in b.reach([t["otherwise"]], avoid=[x[1] for x in [(0, y[1]) for y in t["arms"]]]) and b.dominates(bi, S.pe[0].bb)
+        # `max == 0`, `0 == max`, `max != 0`, `max > 0`, `max < 1` ...: which operand is the max_time variable, which edge means zero
+        if d and d[0] == "rvalue" and d[1]["k"] == "binop" and d[1]["op"] in ("Eq", "Ne", "Gt", "Lt", "Ge", "Le"):
+            op, x, y = d[1]["op"], d[1]["a"], d[1]["b"]
+            if const_int(x) is not None:
+                x, y = y, x
+                op = {"Gt": "Lt", "Lt": "Gt", "Ge": "Le", "Le": "Ge"}.get(op, op)
+            k = const_int(y)
+            if x["k"] in ("copy", "move") and not x["p"]["proj"] and S.classify_local(S.root_local(x["p"]["l"])) == "max_time" and k is not None:
+                zero_when = {("Eq", 0): True, ("Ne", 0): False, ("Gt", 0): False, ("Le", 0): True, ("Lt", 1): True, ("Ge", 1): False}.get((op, k))
+                if zero_when is None:
+                    continue
+                f_t = [a[1] for a in t["arms"] if a[0] == "0"]
+                f_t = f_t[0] if f_t else t["otherwise"]
+                t_t = t["otherwise"] if f_t != t["otherwise"] else [a[1] for a in t["arms"] if a[0] == "1"][0]
+                zero_t, nonzero_t = (t_t, f_t) if zero_when else (f_t, t_t)
+                ok = S.pe[0].bb not in b.reach([zero_t], avoid=[nonzero_t]) and S.pe[0].bb in b.reach([nonzero_t])
     ctx.check(ok, "R03.1", [b.path, "zero-max_time-returns-before-broadcast"], "with max_time == 0 the benchmark can still be broadcast", b.where(0))
     hb = prog.body("benchmark::options::BenchOptions::has_samples", crate)
     if ctx.anchor("R03.1", "BenchOptions::has_samples", 1 if hb else 0, 1):
@@ -201,7 +213,26 @@ def r03_3(ctx, S, prog, crate):
     # post-processing loop
     push = [c for c in b.live_calls() if c.callee == "std::vec::Vec::push" and c.gargs and "TimeSample" in c.gargs[0]]
     dec = [c for c in b.live_calls() if c.callee == "core::num::saturating_sub" and c.bb in S.loop["body"]]
-    if ctx.check(len(push) == 1 and len(dec) == 1, "R03.3", [b.path, "one-push-one-decrement"], "push sites %d, decrement sites %d" % (len(push), len(dec)), b.where(0)):
+    mapdec = S.rem_map_decrements()
+    if len(push) == 1 and not dec and len(mapdec) == 1:
+        # idiom 2: `rem = rem.map(|r| r.saturating_sub(1))` - no guard needed, map leaves None alone
+        mc, mcl, msub = mapdec[0]
+        ctx.saw(mcl)
+        lp = b.innermost_loop(push[0].bb)
+        ok = lp is not None and lp["header"] != S.loop["header"] and b.once_per_iteration(push[0].bb, lp)
+        ctx.check(ok, "R03.3", [b.path, "one-push-per-raw-sample"], "time_samples.push is not executed exactly once per raw sample", push[0].line())
+        ctx.check(const_int(msub.args[1]) == 1, "R03.3", [b.path, "decrement-by-one"], "the remaining-sample counter is decreased by %s" % msub.args[1], msub.line())
+        lp2 = b.innermost_loop(mc.bb)
+        ctx.check(ok and lp2 is not None and lp2["header"] == lp["header"] and b.once_per_iteration(mc.bb, lp), "R03.3", [b.path, "one-decrement-per-raw-sample"],
+                  "the remaining-sample counter is not decreased exactly once per recorded sample", mc.line())
+        if ok:
+            nx = [c for c in b.live_calls() if c.bb in lp["body"] and c.callee.endswith("::next") and b.innermost_loop(c.bb)["header"] == lp["header"]]
+            if nx:
+                srcs = b.prov.op_src(nx[0].args[0])
+                ctx.check(any(z.kind == "call" and z.a == "std::slice::from_raw_parts" for z in srcs) and nophi(srcs), "R03.3", [b.path, "iterates-this-rounds-raw-samples"],
+                          "the post-processing loop does not iterate the slice of this round's raw samples", nx[0].line())
+        ctx.ok("R03.3", "%s|one-push-one-decrement" % b.path)
+    elif ctx.check(len(push) == 1 and len(dec) == 1, "R03.3", [b.path, "one-push-one-decrement"], "push sites %d, decrement sites %d" % (len(push), len(dec)), b.where(0)):
         lp = b.innermost_loop(push[0].bb)
         ok = lp is not None and lp["header"] != S.loop["header"] and b.once_per_iteration(push[0].bb, lp)
         ctx.check(ok, "R03.3", [b.path, "one-push-per-raw-sample"], "time_samples.push is not executed exactly once per raw sample", push[0].line())
@@ -237,8 +268,11 @@ def r03_4(ctx, S, prog, crate):
         return
     r = rem[0]
     inits = []
+    decdest = {mc.dest["l"] for mc, _cl, _sub in S.rem_map_decrements()}
     for bi, si, s in b.stmts():
         if s["k"] == "assign" and s["p"]["l"] == r and not s["p"]["proj"] and s["rv"]["k"] in ("agg", "use"):
+            if s["rv"]["k"] == "use" and s["rv"]["o"]["k"] in ("copy", "move") and s["rv"]["o"]["p"]["l"] in decdest:
+                continue        # `rem = rem.map(|r| r - 1)`: the per-sample decrement (R03.3), not an initialisation
             inits.append((bi, si, s))
     somes = [(bi, si, s) for bi, si, s in inits if s["rv"]["k"] == "agg" and s["rv"].get("variant") == "Some" or s["rv"]["k"] == "use"]
     nones = [(bi, si, s) for bi, si, s in inits if s["rv"]["k"] == "agg" and s["rv"].get("variant") == "None"]
